@@ -205,7 +205,7 @@ struct Fault {
 }
 
 /// fault values applied at offset `o` of `span` (no-ops and duplicates removed)
-fn faults_at(bytes: &[u8], span: &Span, o: usize, tier: Tier) -> (Vec<Fault>, u64) {
+fn faults_at(bytes: &[u8], span: &Span, all_spans: &[Span], o: usize, tier: Tier) -> (Vec<Fault>, u64) {
     let x = bytes[o];
     let mut out: Vec<Fault> = vec![];
     let mut skipped = 0u64;
@@ -238,6 +238,25 @@ fn faults_at(bytes: &[u8], span: &Span, o: usize, tier: Tier) -> (Vec<Fault>, u6
         for n in [2usize, 4] {
             let e = (o + n).min(span.end);
             push(format!("{}-byte overwrite 0xFF", n), (o..e).map(|p| (p, 0xFFu8)).collect(), &mut out, &mut skipped);
+        }
+        // zero-filled runs (a wiped block): 8 and 16 bytes, allowed to run on into the following bytes as long
+        // as those are protected too (e.g. from the end of a file's data into its checksum trailer), never
+        // into bytes no metadata covers. Not on signed regions (any change there is judged per byte already).
+        if !span.signature && span.file.is_some() {
+            // ... and only within the protection domain of the same file (its data, offset table, checksum
+            // table / trailer): a run that also wipes another file's bytes or the (attributes) header is a
+            // two-region fault sequence, which this enumeration does not claim
+            let protected = |p: usize| all_spans.iter().any(|s| !s.signature && s.file.is_some() && s.file == span.file && s.start <= p && p < s.end);
+            for n in [8usize, 16] {
+                let mut w = vec![];
+                for p in o..(o + n).min(bytes.len()) {
+                    if !protected(p) {
+                        break;
+                    }
+                    w.push((p, 0u8));
+                }
+                push(format!("{}-byte zero run", n), w, &mut out, &mut skipped);
+            }
         }
     }
     (out, skipped)
@@ -277,7 +296,7 @@ impl Faults {
         }
         json!({"archives": self.built.len(), "protected_offsets_visited": self.cases.len(),
                "protected_bytes_total": self.built.iter().map(|b| b.spans.iter().map(|s| s.end - s.start).sum::<usize>()).sum::<usize>(),
-               "fault_values_per_offset": self.tier.pick("^0x01, =0xFF, 2/4-byte 0xFF overwrite at 4-aligned offsets (+ all 8 bit flips on signature bytes)",
+               "fault_values_per_offset": self.tier.pick("^0x01, =0xFF, 2/4-byte 0xFF overwrite and 8/16-byte zero runs at 4-aligned offsets (+ all 8 bit flips on signature bytes)",
                                                          "^0x01, ^0x80, =0x00, =0xFF, 2/4-byte 0xFF overwrite at 4-aligned offsets (+ all 8 bit flips on signature bytes)"),
                "payload_stride": self.tier.pick(5, 1), "hash_table_stride": self.tier.pick(3, 1), "offsets_per_region_class": regions,
                "archive_ids": self.built.iter().map(|b| b.spec.id.clone()).collect::<Vec<_>>()})
@@ -422,7 +441,7 @@ impl Space for Faults {
             r.err_return = true;
             return r;
         }
-        let (fl, skipped) = faults_at(&b.bytes, sp, o as usize, self.tier);
+        let (fl, skipped) = faults_at(&b.bytes, sp, &b.spans, o as usize, self.tier);
         r.count("noop_or_duplicate_faults_skipped", skipped);
         let files = jfiles(b);
         let all = self.all_files();
@@ -513,7 +532,7 @@ fn explain(tier: Tier, idx: u64) {
     println!("case {}", f.describe(idx));
     let base = f.baseline(a as usize);
     println!("baseline {}", base.to_json());
-    let (fl, _) = faults_at(&b.bytes, sp, o as usize, tier);
+    let (fl, _) = faults_at(&b.bytes, sp, &b.spans, o as usize, tier);
     let files = jfiles(b);
     let p = f.sc.path("explain.mpq");
     for ft in &fl {
